@@ -212,9 +212,17 @@ def check_remainder(rep, c, pf, reads, scen, construct, s=None):
         if r.kind in ('fixed', 'fixed-skip', 'skip', 'fixed-delegate') and r.width is not None:
             w = r.width
             wi = codec._int(w)
-            if wi is not None:
+            if wi is not None and wi >= 0:
                 if not seen_var:
                     fixed_before += wi
+                continue
+            if w == '' or 'len(%s)' % (pf.params[1] if len(pf.params) > 1 else 'packet') == w or (codec._int(w) is not None and codec._int(w) < 0):
+                # an open or end-relative upper bound (buf[:], buf[:len(buf)], buf[:-k]): everything that is left in the shared input buffer, whatever the header declares
+                rep.violation('C08.d', construct, 'field %s takes the rest of the input buffer' % (r.target or r.text),
+                              'a field is read / consumed up to the end of the shared input buffer instead of the declared length: the reader '
+                              'swallows the packets that follow', where='%s:%d' % (pf.module.relpath, r.line),
+                              expected='%s minus the octets already consumed' % length, found=r.text, scenario=scen)
+                seen_var = True
                 continue
             lin = _remainder(w, length)
             if lin is None:
